@@ -6,16 +6,16 @@ from vlib import core, diff
 MANIFEST = dict(
     engine="E-unusedvar",
     technique="Coq proof by induction over the walk (pre-order visit list) of an executable model of AstWalker + UnusedVarAnalyzer on the real syntax tree; two-phase differential run of the extracted model against the real analyser on trees the real parser builds; independent token-level oracle stating the property on the source text",
-    text=("Theorems over the Gallina model (all trees, generic in the key function): the report of a file is the concatenation of "
-          "its methods' reports under WFtop (C15_report_decomposes, C15_unused_per_method: permuting top-level declarations permutes "
-          "the report), each method's warnings are exactly one warning per local that no terminal other than a right operand of a dot "
-          "names ignoring case, placed on the declared name, under the per-method guards (C15_unused_exact; guard-free exact form "
-          "C15_method_warnings_exactly), placement (C15_placement), equivariance under injective renaming (C15_unused_rename). "
-          "The unguarded statement is false of the code: C15_case_refuted (X = 1 does not use var x), C15_literal_refuted (foo('s') "
-          "uses var s), C15_per_method_refuted / C15_trailing_refuted (a field's absolute target after a method is charged to it), "
-          "C15_use_before_decl_refuted, C15_duplicate_refuted, each on a dump of the real parser's tree failing exactly one guard; "
-          "C15_unused_exact_upper: with upper-cased keys the letter-case guard disappears. Tie: generated Gold files of 1..8 methods "
-          "with 0..6 locals in 17 use categories, method permutations and consistent renamings of every program, exhaustive "
+    text=("Theorems over the Gallina model (all trees, generic in the key function; the code keys by the upper-cased name): the report of a "
+          "file is the concatenation of its methods' reports under WFtop (C15_report_decomposes, C15_unused_per_method: permuting top-level "
+          "declarations permutes the report), each method's warnings are exactly one warning per local that no non-literal terminal other than "
+          "a right operand of a dot names ignoring case, placed on the declared name, under the per-method guards G_flat/G_dup/G_order/G_pos "
+          "(C15_unused_exact; guard-free exact form C15_method_warnings_exactly), placement (C15_placement), equivariance under injective "
+          "renaming (C15_unused_rename). The unguarded statement is still false of the code: C15_per_method_refuted / C15_trailing_refuted (a "
+          "field's absolute target after a method is charged to it), C15_use_before_decl_refuted, C15_duplicate_refuted, and on the property "
+          "read on the text C15_callee_refuted, C15_for_counter_refuted, C15_indexed_member_refuted, each on a dump of the real parser's tree. "
+          "Repaired in /repo and now regression examples: letter case (e5fd419), string-literal content (993bb42). Tie: generated Gold files of "
+          "1..8 methods with 0..6 locals in 17 use categories, method permutations and consistent renamings of every program, exhaustive "
           "single/pair category sweep, malformed stream: real lexer+parser+walker+analyser vs extracted model on the dumped tree, "
           "all diagnostics equal; the tree-level Coq specification is itself cross-checked against the text-level oracle."),
     note=("Trusted: Coq kernel, translators T1/T2/T5, extraction, harness + tree dumper. The property as stated does NOT hold of the code "
@@ -87,8 +87,6 @@ M_END = {"endproc", "endfunc"}
 # deviations of the code from the property, as switches of the text-level oracle; each is the class
 # predicate of one finding id of known_findings.json
 DEVS = {
-    "case-variant-use-not-counted": "case",
-    "literal-content-counts-as-use": "lit",
     "trailing-toplevel-terminal-charged-to-previous-method": "trailing",
     "use-before-declaration-not-counted": "before",
     "callee-name-not-counted": "callee",
@@ -96,9 +94,7 @@ DEVS = {
     "indexed-member-counts-as-use": "indexed",
 }
 DEV_WHAT = {
-    "case-variant-use-not-counted": "a use spelled in another letter case is not counted: `var x : int4` ... `X = 1` -> \"Unused var: x\" (map keyed by spelling)",
-    "literal-content-counts-as-use": "a string literal whose content equals a local's name counts as a use: `foo('s')` silences `var s` (any AstTerminal counts)",
-    "trailing-toplevel-terminal-charged-to-previous-method": "a terminal in a top-level declaration that follows a method (a field's `absolute` target, a record parent, a range bound) is charged to that method's locals (the map is only reset at the next method)",
+    "trailing-toplevel-terminal-charged-to-previous-method": "a non-literal terminal in a top-level declaration that follows a method (a field's `absolute` target, a record parent) is charged to that method's locals (the map is only reset at the next method)",
     "use-before-declaration-not-counted": "a use that textually precedes the `var` declaration is not counted: `x = 1` ... `var x : int4` -> \"Unused var: x\"",
     "callee-name-not-counted": "a local used only as a call name `x(1)` is reported unused (AstMethodCall's callee identifier is not a child node)",
     "for-counter-not-counted": "a local used only as a for-counter `for x = 1 to 3` is reported unused (the counter is a token of AstForBlock, not a node)",
@@ -136,7 +132,7 @@ def split_items(toks):
 
 def trailing_terminals(dtoks):
     """tokens of a top-level declaration stretch that the parser turns into AstTerminal nodes
-    (the forms the generator emits): `absolute NAME`, `record (NAME)`, `'a' to 'b'` / `1 to 9`."""
+    (the forms the generator emits): `absolute NAME`, `record (NAME)`, `'a' to 'b'` (string literals: never counted)."""
     r = []
     for i, (k, s, l, c) in enumerate(dtoks):
         prev = dtoks[i - 1] if i else None
@@ -159,7 +155,7 @@ def analyse(text, devs=frozenset()):
     toks = tokenize(text)
     items = split_items(toks)
     expected, skip = Counter(), set()
-    same = (lambda a, b: a == b) if "case" in devs else (lambda a, b: a.lower() == b.lower())
+    same = lambda a, b: a.lower() == b.lower()
     for idx, it in enumerate(items):
         if it[0] != "m":
             continue
@@ -200,14 +196,8 @@ def analyse(text, devs=frozenset()):
                     if "before" in devs and i < di:
                         continue
                     mentioned = True
-                elif tk == "str" and "lit" in devs and same(ts[1:-1], name):
-                    if prev is not None and prev[1] == ".":
-                        continue
-                    if "before" in devs and i < di:
-                        continue
-                    mentioned = True
             for (tk, ts) in trail:
-                if same(ts, name) and (tk == "id" or "lit" in devs):
+                if same(ts, name) and tk == "id":
                     mentioned = True
             if not mentioned:
                 expected["2:U:%d:%d:%d:%d:%s" % (l, c, l, c + len(name), cps(name.lower()))] += 1
@@ -215,7 +205,11 @@ def analyse(text, devs=frozenset()):
 
 
 def parse_out(impl_out):
-    """-> (list of diag strings, pos_flag) ; raises on unparsable"""
+    """-> (list of diag strings, pos_flag) ; raises on unparsable.  The list is the one of the diagnostics RESPONSE
+    (a trailing !DIRECT[..] carries what the analyzer driven directly said, when that differs)"""
+    k = impl_out.find("!DIRECT[")
+    if k >= 0:
+        impl_out = impl_out[:k]
     flag = impl_out.endswith("!POS")
     if flag:
         impl_out = impl_out[:-4]
@@ -543,11 +537,17 @@ def malformed(rng, text):
 
 # hand-written programs: the witnesses of the *_refuted theorems (Proofs/UnusedVarWitness.v holds the
 # dumps of exactly these texts) and a few more; (text, expected sorted diagnostics of the CODE AS IT IS)
+# repaired findings (known_findings.json "fixed"): their minimal texts run first and must satisfy the oracle
+REGRESSION = [
+    "proc p\n var x : int4\n X = 1\nendproc",          # e5fd419: a use in another letter case counts
+    "proc p\n var s : int4\n foo('s')\nendproc",       # 993bb42: the content of a string literal does not
+    "proc p\n var A : int4\nendproc\ntype t : 'A' to 'Z'",   # ... nor in a declaration that follows the method
+    "proc p\n var Flag : int4\n var flag : int4\nendproc",   # case variants are ONE name: the second is a duplicate
+]
+
 WITNESSES = [
     ("w_ok", "class aC (aP)\n\nmemory g : int4\n\nproc p(a : int4)\n var x : int4\n var y : int4\n var z : int4\n y = a + 1\n self.x = y\n if y > 0\n  z.foo(1)\n endif\nendproc\n\nfunc f return int4\n var x : int4\n var w : int4\n return x\nendfunc\n",
      "2:U:17:5:17:6:119;2:U:5:5:5:6:120"),
-    ("w_case", "proc p\n var x : int4\n X = 1\nendproc", "2:U:1:5:1:6:120"),
-    ("w_lit", "proc p\n var s : int4\n foo('s')\nendproc", ""),
     ("w_order", "proc p\n x = 1\n var x : int4\nendproc", "2:U:2:5:2:6:120"),
     ("w_dup", "proc p\n var x : int4\n var x : int4\nendproc", "1:D:2:5:2:6:-;2:U:1:5:1:6:120"),
     ("w_trail", "proc p\n var x : int4\nendproc\nproc q\nendproc\nmemory f : int4 absolute x", "2:U:1:5:1:6:120"),
@@ -589,6 +589,8 @@ def gen_cases(ctx):
             if fresh and all(ch.isalpha() for ch in old):
                 add(rename_text(text, old, fresh), kind="rename", base=base, old=old, fresh=fresh)
 
+    for text in REGRESSION:
+        add(text, kind="base")
     for (_, text, _) in WITNESSES:
         add(text, kind="base")
     # exhaustive: one method, one local, every category; every ordered pair of categories in one method;
@@ -810,7 +812,7 @@ def correspondence(ctx, broken_obligations=()):
         if ext_c != pure:
             fail(ctx, "the extended tree-level specification (unused_spec_ext) and the property stated on the text disagree",
                  dict(case=c, case_readable=text, model=spec_ext, expected=sorted(pure.elements())))
-        if flags == "1111111":
+        if flags == "11111":
             wf_ok += 1
             wf_cases.append((c, o, spec))
     # 2. differential + the property's oracle on the implementation's own output
@@ -821,16 +823,17 @@ def correspondence(ctx, broken_obligations=()):
               "categories (%s); top-level declarations before/between/after the methods; every single category x3, every ordered pair of "
               "categories in one method and split over two methods (exhaustive), then %d random programs; for every program one method "
               "permutation and one consistent renaming (same-length fresh name, all spellings); %d damaged programs (model = implementation only; "
-              "%d more dropped because the real parser panics on them: C04); the 10 hand-written witnesses. Non-trivial = has a method and a local declaration. "
+              "%d more dropped because the real parser panics on them: C04); first the regression texts of the repaired findings, then the hand-written witnesses. Non-trivial = has a method and a local declaration. "
               "Expected verdicts: computed by the generator from the category AND independently from the text by a token-level statement of the property; "
               "both must agree before a case is used."
               % (len(CATS), ", ".join(CATS), 450 if ctx.quick else 14000, kinds["malformed"], len(dropped))),
         exhaustive=True, case_kinds=dict(kinds), witnesses_replayed=[w[0] for w in WITNESSES],
-        refuted=["C15_case_refuted", "C15_literal_refuted", "C15_per_method_refuted", "C15_trailing_refuted",
+        regression_corpus=REGRESSION,
+        refuted=["C15_per_method_refuted", "C15_trailing_refuted",
                  "C15_use_before_decl_refuted", "C15_duplicate_refuted",
                  "C15_callee_refuted", "C15_for_counter_refuted", "C15_indexed_member_refuted"],
         guard_flags_histogram=dict(flags_hist), programs_satisfying_all_guards=wf_ok, spec_vs_text_oracle_checked=len(valid),
-        samples=[dec(cases[len(WITNESSES) + 5]), dec([c for c in cases if meta[c]["kind"] == "base"][-1])[:1500],
+        samples=[dec(cases[len(WITNESSES) + len(REGRESSION) + 5]), dec([c for c in cases if meta[c]["kind"] == "base"][-1])[:1500],
                  dec([c for c in cases if meta[c]["kind"] == "malformed"][0])[:600]])
     try:
         cov = diff.differential(ctx, "unusedvar", cases, split=lambda out: tuple(out.split("#", 1)), oracle=oracle, known=known,
